@@ -104,6 +104,23 @@ def run(ctx):
                        "mus": [[float(v) for v in m] for m in mus],
                        "data": {"data": [float(v) for row in data for v in row], "shape": [T, n], "layout": ["C", "F", "strided"][i % 3]}})
         ll_exact.append((thetas, mus, data))
+    # data in LARGE or SMALL units (raw counts, Pa; or metres for micrometre motions): precision matrices whose entries are all
+    # far below / above every "default tolerance" (2^-30 ~ 1e-9, 2^-50, 2^+30) with windows scaled to match - exactly
+    # representable, so the rational formula still applies
+    for i in range(4 if ctx.quick() else 24):
+        n = ctx.rng.randint(2, 4)
+        K = ctx.rng.randint(1, 3)
+        T = ctx.rng.randint(5, 30)
+        e_ = [-30, -50, 30, -40][i % 4]
+        sc_t, sc_d = Fraction(2) ** e_, Fraction(2) ** (-(e_ // 2))
+        thetas = [[[v * sc_t for v in r] for r in c05.spd_dyadic(ctx.rng, n)] for _ in range(K)]
+        mus = [[Fraction(ctx.rng.randint(-32, 32), 8) * sc_d for _ in range(n)] for _ in range(K)]
+        data = [[Fraction(ctx.rng.randint(-128, 128), 8) * sc_d for _ in range(n)] for _ in range(T)]
+        lljobs.append({"W": 1, "thetas": [[[float(v) for v in r] for r in t] for t in thetas],
+                       "mus": [[float(v) for v in m] for m in mus],
+                       "data": {"data": [float(v) for row in data for v in row], "shape": [T, n], "layout": ["C", "F"][i % 2]}})
+        ll_exact.append((thetas, mus, data))
+        ctx.count("ll_tables_in_large_or_small_units")
     # long tables with stuck stretches (runs of identical consecutive windows, as flat-lined sensors produce):
     # long enough that every thread of the parallel loop gets a chunk, stretches long enough to straddle chunk
     # boundaries; each row's likelihood must not depend on which rows a neighbouring thread has finished
